@@ -24,6 +24,43 @@ def indexL (xs : List Int) (i : Int) : Except PyErr Int :=
     | some x => .ok x
     | none => .error .indexError
 
+/-- an element of `Script.script`: an opcode name (any str that is not hex data), a hex string (modelled by the bytes it
+denotes) or an int -/
+inductive PyTok
+  | name (s : String)
+  | data (b : Bytes)
+  | int (n : Int)
+deriving Repr, DecidableEq, Inhabited
+
+/-- `token in OP_CODES` (a hex string or an int is never a key of the opcode table) -/
+def tokInTable (ops : List (String × Bytes)) : PyTok → Bool
+  | .name s => (ops.lookup s).isSome
+  | _ => false
+/-- `OP_CODES[key]` -/
+def lookupS (ops : List (String × Bytes)) (k : String) : Except PyErr Bytes :=
+  match ops.lookup k with
+  | some b => .ok b
+  | none => .error .other           -- KeyError
+/-- `OP_CODES[token]` -/
+def tokLookup (ops : List (String × Bytes)) : PyTok → Except PyErr Bytes
+  | .name s => lookupS ops s
+  | _ => .error .other
+/-- `isinstance(token, int)` -/
+def tokIsInt : PyTok → Bool
+  | .int _ => true
+  | _ => false
+/-- the token as a number (only evaluated under `isinstance(token, int)`) -/
+def tokInt : PyTok → Int
+  | .int n => n
+  | _ => 0
+/-- `h_to_b(token)`: the bytes a hex string denotes; a str that is not hex raises ValueError -/
+def tokData : PyTok → Except PyErr Bytes
+  | .data b => .ok b
+  | .name _ => .error .valueError
+  | .int _ => .error .typeError
+/-- `str(i)` -/
+def strInt (i : Int) : String := toString i
+
 /-- `bytes(x ^ y for (x, y) in zip(a, b))` -/
 def xorBytes (a b : Bytes) : Bytes := (a.zip b).map fun p => p.1 ^^^ p.2
 
